@@ -240,17 +240,18 @@ type MemRow struct {
 }
 
 // MemRows returns the rows of the current memory view as data plus its rendered cells.
-func (s *Session) MemRows() ([]MemRow, int, bool) {
+// The last result is the panic message of rendering the memory view ("" if it rendered).
+func (s *Session) MemRows() ([]MemRow, int, bool, string) {
 	m, _ := s.UI.VerifMode()
 	if m == nil {
-		return nil, -1, false
+		return nil, -1, false, ""
 	}
 	rows, c, ok := memview.VerifRows(m)
 	if !ok {
-		return nil, -1, false
+		return nil, -1, false, ""
 	}
 	out := make([]MemRow, len(rows))
-	text, _ := capture(func() { m.View().Print(len(rows) + 8) })
+	text, pmsg := capture(func() { m.View().Print(len(rows) + 8) })
 	printed := strings.Split(text, "\n")
 	// the view prints from a window around the cursor; rows are matched by their printed index
 	byIdx := map[int]string{}
@@ -276,7 +277,7 @@ func (s *Session) MemRows() ([]MemRow, int, bool) {
 			}
 		}
 	}
-	return out, c, true
+	return out, c, true, pmsg
 }
 
 // EmuIP returns the instruction pointer of the current mode if it is an emulate mode.
